@@ -72,10 +72,16 @@ def ser_op(s, t):
         raise RuntimeError('bad op ' + c)
 
 
-def run_pyser(n, ops):
+EXC = (ValueError, IndexError, AssertionError, OverflowError, ZeroDivisionError, TypeError, NotImplementedError)
+
+
+def run_pyser(n, ops, big_endian=False):
     idx = 0
     try:
-        s = ns.Serializer.new(int(n))
+        if big_endian:  # the class for big-endian hosts, instantiated directly (Serializer.new picks by sys.byteorder)
+            s = ns._BigEndianSerializer(numpy.zeros(int(n) + ns.Serializer._EXTRA_BUFFER_CAPACITY_BYTES, dtype=Byte))
+        else:
+            s = ns.Serializer.new(int(n))
         root = s
         stack = []
         for idx, op in enumerate(ops):
@@ -88,7 +94,7 @@ def run_pyser(n, ops):
             else:
                 ser_op(s, t)
         return '%d %s' % (s.current_bit_length, hx(root._buf.tobytes()))
-    except (ValueError, IndexError, AssertionError, OverflowError, ZeroDivisionError, TypeError):
+    except EXC:
         return 'EXC@%d' % idx
 
 
@@ -121,17 +127,44 @@ def des_op(d, t, out):
             out.append('nan')
         else:
             out.append(hx(struct.pack(fmt, v)))
+    elif c in ('aa', 'ua'):
+        f = d.fetch_aligned_array_of_standard_bit_length_primitives if c == 'aa' else d.fetch_unaligned_array_of_standard_bit_length_primitives
+        a = f(numpy.dtype(t[1]), int(t[2]))
+        assert len(a) == int(t[2])
+        out.append(hx(a.tobytes()) + (('/' + '.'.join(str(int(x)) for x in a)) if t[1][1] == 'u' else ''))
     elif c == 'rem':
         out.append(str(d.remaining_bit_length))
     else:
         raise RuntimeError('bad op ' + c)
 
 
-def run_pydes(buf, ops):
+def run_zeb(buf, ops):
     idx = 0
     out = []
     try:
-        d = ns.Deserializer.new([memoryview(unhex(buf))])
+        z = ns.ZeroExtendingBuffer([memoryview(unhex(buf))])
+        for idx, op in enumerate(ops):
+            t = op.split(':')
+            if t[0] == 'gb':
+                out.append(str(z.get_byte(int(t[1]))))
+            elif t[0] == 'sl':
+                out.append(hx(z.get_unsigned_slice(int(t[1]), int(t[2])).tobytes()))
+            elif t[0] == 'fk':
+                out.append(hx(b''.join(bytes(m) for m in z.fork_bytes(int(t[1]), int(t[2])))))
+            elif t[0] == 'bl':
+                out.append(str(z.bit_length))
+            else:
+                raise RuntimeError('bad zeb op')
+        return ','.join(out)
+    except EXC:
+        return 'EXC@%d' % idx
+
+
+def run_pydes(buf, ops, big_endian=False):
+    idx = 0
+    out = []
+    try:
+        d = ns._BigEndianDeserializer([memoryview(unhex(buf))]) if big_endian else ns.Deserializer.new([memoryview(unhex(buf))])
         stack = []
         for idx, op in enumerate(ops):
             t = op.split(':')
@@ -143,7 +176,7 @@ def run_pydes(buf, ops):
             else:
                 des_op(d, t, out)
         return ','.join(out + [str(d.consumed_bit_length)])
-    except (ValueError, IndexError, AssertionError, OverflowError, ZeroDivisionError, TypeError):
+    except EXC:
         return 'EXC@%d' % idx
 
 
@@ -159,6 +192,12 @@ def main():
                 w(run_pyser(t[1], t[2].split(';') if len(t) > 2 else []) + '\n')
             elif t[0] == 'pydes':
                 w(run_pydes(t[1], t[2].split(';') if len(t) > 2 else []) + '\n')
+            elif t[0] == 'pyserbe':
+                w(run_pyser(t[1], t[2].split(';') if len(t) > 2 else [], True) + '\n')
+            elif t[0] == 'pydesbe':
+                w(run_pydes(t[1], t[2].split(';') if len(t) > 2 else [], True) + '\n')
+            elif t[0] == 'zeb':
+                w(run_zeb(t[1], t[2].split(';') if len(t) > 2 else []) + '\n')
             elif t[0] == 'f16p':
                 x = struct.unpack('<f', int(t[1]).to_bytes(4, 'little'))[0]
                 w('%d\n' % int.from_bytes(ns.Serializer._float_to_bytes('e', x).tobytes(), 'little'))
